@@ -4,6 +4,10 @@ import (
 	"bytes"
 	"fmt"
 	"io"
+	"sync"
+	"testing"
+	"testing/synctest"
+	"time"
 
 	"perun.network/go-perun/channel"
 	"perun.network/go-perun/wire"
@@ -16,6 +20,14 @@ import (
 
 func genC14(r *kernel.Rand, sc *kernel.Scenario, run int) {
 	k := 1 + r.Weighted([]int{2, 3, 3, 3, 2, 2, 2, 2, 1, 1, 1, 1, 1, 1, 1, 1, 1, 1, 1, 1})
+	if r.Bool(0.2) {
+		// the envelopes of the run are also sent by 2-3 senders at the same time,
+		// each on its own connection whose writes take (simulated) time
+		sc.Config["senders"] = int64(r.Range(2, 3))
+		if k < 4 {
+			k += 3
+		}
+	}
 	for i := 0; i < k; i++ {
 		if r.Bool(0.6) {
 			// the first value of run r has type r mod 17, so every batch covers all types
@@ -76,7 +88,7 @@ func stripIndex(s string) string {
 	return s
 }
 
-func (Engine) execC14(sc *kernel.Scenario, res *kernel.Result, trace bool) {
+func (e Engine) execC14(t *testing.T, sc *kernel.Scenario, res *kernel.Result, trace bool) {
 	logf := func(format string, a ...any) {
 		if trace {
 			res.Trace = append(res.Trace, fmt.Sprintf(format, a...))
@@ -204,4 +216,86 @@ func (Engine) execC14(sc *kernel.Scenario, res *kernel.Result, trace bool) {
 		logf("protobuf: envelope %d %s, bytes %d..%d: equal to sent, exact consumption, agrees with native", i, v.label, start, pends[k])
 	}
 	res.NonTrivial = len(vals) >= 2
+	if n := int(sc.Cfg("senders", 0)); n >= 2 && res.Violation == nil {
+		e.execC14senders(t, sc, res, vals, stepOf, n, logf)
+	}
+}
+
+// slowWriter is a connection whose every write takes a keyed amount of
+// simulated time, so that concurrent senders interleave between (and inside)
+// envelopes.
+type slowWriter struct {
+	w    io.Writer
+	seed uint64
+	id   int
+	n    int
+}
+
+func (s *slowWriter) Write(p []byte) (int, error) {
+	s.n++
+	time.Sleep(time.Duration(1+kernel.Derive(s.seed, "slow-write", s.id, s.n)%40) * time.Microsecond)
+	return s.w.Write(p)
+}
+
+// execC14senders: several goroutines encode envelopes at the same time, each
+// to its own link; every link must then carry exactly what its sender sent.
+// Encoding is a function of the envelope alone: concurrent senders must not
+// influence each other (shared scratch buffers, pools, caches).
+func (e Engine) execC14senders(t *testing.T, sc *kernel.Scenario, res *kernel.Result, vals []*value, stepOf []int, n int, logf func(string, ...any)) {
+	var envs []int
+	for i, v := range vals {
+		if v.kind.env {
+			envs = append(envs, i)
+		}
+	}
+	if len(envs) < 2 {
+		return
+	}
+	for ser := range serializers {
+		links := make([]*Link, n)
+		sent := make([][]int, n)
+		synctest.Test(t, func(t *testing.T) {
+			var wg sync.WaitGroup
+			for s := 0; s < n; s++ {
+				links[s] = NewLink()
+				for k, i := range envs {
+					if k%n == s {
+						sent[s] = append(sent[s], i)
+					}
+				}
+				s := s
+				wg.Add(1)
+				go func() {
+					defer wg.Done()
+					w := &slowWriter{w: links[s].A, seed: sc.Seed, id: ser*16 + s}
+					for _, i := range sent[s] {
+						if err := serializers[ser].Encode(w, vals[i].v.(*wire.Envelope)); err != nil {
+							return
+						}
+					}
+				}()
+			}
+			wg.Wait()
+		})
+		res.Count("fault.concurrent-senders", int64(n))
+		for s := 0; s < n; s++ {
+			data, writes := links[s].A.Sent()
+			l := Preload(data, writes)
+			for k, i := range sent[s] {
+				v := vals[i]
+				o := guarded(func() (any, error) { return serializers[ser].Decode(l.B) })
+				res.Evals++
+				if o.paniced || o.err != nil {
+					res.Fail(stepOf[i], "C14.concurrent-senders@"+serNames[ser]+"/decode-error", "%d senders: envelope %d of sender %d (%s) cannot be decoded from its own connection: %v %v", n, k, s, v.label, o.err, o.pval)
+					return
+				}
+				re := guarded(func() (any, error) { return encodeNative(v.kind, o.v) })
+				if re.paniced || re.err != nil || !bytes.Equal(re.v.([]byte), v.native) {
+					res.Fail(stepOf[i], "C14.concurrent-senders@"+serNames[ser]+"/changed", "%d senders: envelope %d of sender %d (%s) arrives as a different envelope on its own connection", n, k, s, v.label)
+					return
+				}
+			}
+		}
+		logf("%s: %d concurrent senders, %d envelopes: every connection carries what its sender sent", serNames[ser], n, len(envs))
+	}
 }
